@@ -38,6 +38,39 @@ def for_loops(e):
     return out
 
 
+def helper_of(F, fn, arm):
+    """The rink_core function an arm hands its operand expression (the arm's pattern binding) to, if there is exactly one."""
+    binds = [b for b in hir_walk(arm["pat"]) if b.get("pk") == "bind"]
+    if not binds:
+        return None
+    lid = binds[0]["lid"]
+    cands = []
+    for c in hir_walk(arm["body"]):
+        if c.get("k") == "Call" and c["f"].get("k") == "Path" and any((H.local_name(a) or (None, None))[1] == lid for a in c["args"]):
+            g = F.fns.get(c["f"]["r"].get("id"))
+            if g is not None and g.crate == "rink_core" and not g.path.endswith("eval::eval_expr"):
+                cands.append(g)
+    return cands[0] if len(cands) == 1 else None
+
+
+def helper_reads_quantity_first(F, h):
+    from facts import ap_str
+    fq = [(bb, t) for bb, t in h.calls() if "callee" in t and t["callee"]["path"].endswith("eval::find_quantity")]
+    if len(fq) != 1:
+        return False, "it does not call find_quantity exactly once"
+    bb, t = fq[0]
+    for g in h.guards_of(bb):
+        d = h.guard_desc(g)
+        txt = ap_str(d[1])
+        if ".units" in txt or "Context::lookup(" in txt or "Registry::lookup" in txt:
+            return False, "the quantity reading is tried only after a test of the unit table (%s)" % txt[:80]
+    if "Expr::Unit" not in " ".join(ap_str(h.apath(a)) for a in t["args"]) and "as Unit" not in " ".join(ap_str(h.apath(a)) for a in t["args"]):
+        return False, "find_quantity is not given the bare unit name of the operand"
+    if not any("callee" in t2 and t2["callee"]["path"].endswith("eval::eval_expr") for _, t2 in h.calls()):
+        return False, "no fall-back to eval_expr"
+    return True, "find_quantity on the bare name, ungated, then eval_expr"
+
+
 def shortcut_desc(arm):
     """Normal form of the quantity-name shortcut of an arm: (iterated, condition, assigned) texts."""
     body = arm["body"]
@@ -82,6 +115,22 @@ def shortcut(chk, F):
     _, fa = query_arm(F, "Factorize")
     du, df = shortcut_desc(ua), shortcut_desc(fa)
     where = "%s:%d" % (fn.file, ua["line"])
+    # helper form: both arms hand their operand to one function that tries the quantity reading first
+    if du is None and df is None:
+        hu, hf = helper_of(F, fn, ua), helper_of(F, fn, fa)
+        if hu is not None and hf is not None:
+            for name, hfn, arm in (("UnitsFor", hu, ua), ("Factorize", hf, fa)):
+                okh, why = helper_reads_quantity_first(F, hfn)
+                chk.decide(okh, "shortcut", FK, name + ":quantity-name-to-dimensionality", hfn.where(),
+                           "a bare quantity name resolves to the dimensionality registered under that name (helper %s: %s)" % (hfn.path, why),
+                           "the helper %s does not read a bare name as the quantity of that name first: %s - `units for force` and `factorize force` answer "
+                           "for the unit `force` (an alias of gravity, an acceleration) instead of the quantity" % (hfn.path, why))
+                evals = H.path_calls(arm["body"], "eval::eval_expr")
+                chk.decide(not evals, "shortcut", FK, name + ":single-source", "%s:%d" % (fn.file, arm["line"]),
+                           "X comes from the helper alone", "%s also evaluates the expression itself besides calling the helper" % name)
+            chk.decide(hu.id == hf.id, "shortcut", FK, "siblings-agree", where, "both commands resolve their operand with the same helper",
+                       "units-for and factorize use different helpers (%s, %s)" % (hu.path, hf.path))
+            return
     for name, d, arm in (("UnitsFor", du, ua), ("Factorize", df, fa)):
         ok = d is not None and d["iterates"] == "&ctx.registry.quantities" and d["cond"] in ("(name Eq k)", "(k Eq name)") and \
             d["item"].replace(" ", "") in ("Option::Some{0:(u,k)}",) and "unit: u.clone()" in d["assign"] and "value: Numeric::one()" in d["assign"] and d["breaks"] >= 1
